@@ -179,6 +179,20 @@ def select (c : SelCfg) : Strategy :=
   else if shouldDecompress c then .decompress
   else .direct
 
+/-- `search.rs`: `cmd_builder.async_stderr(true)` / `decomp_builder.async_stderr(true)` (source-anchored):
+ripgrep always runs the concurrent stderr drainer. -/
+abbrev ripgrepAsyncStderr : Bool := true
+
+/-- `decompress.rs::default_decompression_commands`: the rules the harness relies on, glob suffix ↦ program
+(source-anchored; lz4 / lzma / br / zstd / Z are registered likewise, whether or not the program exists). -/
+def decompRules : List (String × String) :=
+  [("gz", "gzip"), ("tgz", "gzip"), ("bz2", "bzip2"), ("tbz2", "bzip2"), ("xz", "xz"), ("txz", "xz"),
+   ("lz4", "lz4"), ("lzma", "xz"), ("br", "brotli"), ("zst", "zstd"), ("zstd", "zstd"), ("Z", "uncompress")]
+
+/-- `has_command(path)` for a file name: some rule `*.<suffix>` matches. -/
+def recognisedName (name : String) : Bool :=
+  decompRules.any fun r => name.toList.length ≥ r.1.length + 1 ∧ (String.ofList (name.toList.drop (name.toList.length - r.1.length - 1))) == "." ++ r.1
+
 /-! ### Part 3 — two pipes of capacity `K`
 
 The child's program is the sequence of its one-byte writes: `false` = to stdout, `true` = to stderr;
